@@ -15,7 +15,7 @@ import ast
 from typing import Any, Dict, List, Optional, Tuple
 
 from mtsa import sqlmini
-from mtsa.absint import K, R, S, U, V
+from mtsa.absint import K, R, S, U, V, State
 from mtsa.index import Repo, calls_in, dotted, norm, walk_no_nested
 from mtsa.report import AnalysisError, Ctx
 
@@ -363,6 +363,69 @@ def rule_schema(ctx: Ctx, repo: Repo) -> None:
             ctx.violate("R-C09.4", DM.DB, " ".join(node.value.split())[:80], "an SQL statement of the store removes or rewrites committed rows", node=node)
 
 
+def rule_store_per_call(ctx: Ctx, repo: Repo) -> None:
+    """R-C09.8: `DefaultConfig.trace_store()` connects to the database file that its path names AT THAT MOMENT.  The default path
+    is relative (`monkeytype.sqlite3`) and `MT_DB_PATH` may change: a store kept from an earlier call (memoised under the path
+    string) would write the next batch into the database of another directory, and read the listing from there.  The method is
+    interpreted twice on one configuration object of a shared heap (module-level objects and lru_cache tables persist), with the
+    current directory - and, in a second scenario, the environment variable - changed in between; every call must reach
+    sqlite3.connect with the path as the environment gives it then."""
+    from .common import RepoInterp
+    from mtsa.index import FunctionInfo
+    cfg_mod = repo.module("monkeytype.config")
+    ci = repo.cls("monkeytype.config", "DefaultConfig")
+    ts = repo.method(ci, "trace_store")
+    if ts is None:
+        raise AnalysisError("DefaultConfig.trace_store not found")
+    ctx.functions.add(ts.fq)
+    n = 0
+    for what, worlds in (("the current directory changes between two calls (same relative path)", [("/work/a", None), ("/work/b", None)]),
+                         ("MT_DB_PATH changes between two calls", [("/work/a", "one.sqlite3"), ("/work/a", "two.sqlite3")]),
+                         ("nothing changes between two calls", [("/work/a", None), ("/work/a", None)])):
+        st0 = State()
+        cfg = st0.alloc("obj", {"__class__": K(ci.fq)})
+        carry: Optional[State] = st0
+        connects: List[Tuple[Any, str]] = []
+        world = {"cwd": "", "env": None}
+
+        def hook(call, fname, fval, args, kwargs, st, _c=connects, _w=world):
+            d = fname or ""
+            m = call.func.attr if isinstance(call.func, ast.Attribute) else None
+            if d == "sqlite3.connect":
+                _c.append((st.freeze(args[0]) if args else None, _w["cwd"]))
+                return R("connection", path=st.freeze(args[0]) if args else K(None), cwd=K(_w["cwd"]), n=K(len(_c)))
+            if d == "os.environ.get" and args:
+                if _w["env"] is not None:
+                    return K(_w["env"])
+                return args[1] if len(args) > 1 else K(None)
+            if d in ("os.getcwd",):
+                return K(_w["cwd"])
+            if d == "create_call_trace_table" or (isinstance(fval, R) and fval.kind == "connection"):
+                return K(None)
+            return None
+
+        results = []
+        for cwd, env in worlds:
+            world["cwd"], world["env"] = cwd, env
+            inline = {f.fq for m_ in ("monkeytype.config", DM.DB) for f in repo.module(m_).functions.values()}
+            ri = RepoInterp(repo, ts, inline=inline, call_hook=hook, may_fork=(), heap=True, max_depth=12)
+            ri.construct_instances = True
+            ri.dispatch_instances = True
+            ri.self_class = ci
+            outs = ri.run({"self": cfg}, carry=carry)
+            if len(outs) != 1 or outs[0].term is None or outs[0].term[0] != "return":
+                raise AnalysisError(f"DefaultConfig.trace_store: {[o.term for o in outs]}")
+            carry = outs[0]
+            results.append(carry.freeze(carry.term[1]))
+            carry.term = None
+        n += 1
+        want = [(K(env or "monkeytype.sqlite3"), cwd) for cwd, env in worlds]
+        ctx.check(connects == want, "R-C09.8", ts.fq,
+                  "every call of trace_store() opens the database its path names at that moment (relative to the current directory then, from MT_DB_PATH as it is then)",
+                  construct=f"{what}: sqlite3.connect calls {[(getattr(p, 'v', p), c) for p, c in connects]}, expected {[(p.v, c) for p, c in want]}")
+    ctx.floor("R-C09.8", "two-call histories of trace_store()", n, 3)
+
+
 def run(ctx: Ctx, repo: Repo, tier: str) -> None:
     ctx.trust("sqlite: `=`/`==` on TEXT with the default BINARY collation is exact and case-sensitive",
               "sqlite: LIKE without ESCAPE treats _ and % in the right operand as wildcards and is ASCII case-insensitive unless PRAGMA case_sensitive_like; GLOB has * ? [ wildcards",
@@ -377,4 +440,5 @@ def run(ctx: Ctx, repo: Repo, tier: str) -> None:
     ctx.attempt(rule_serialize, ctx, repo)
     ctx.attempt(rule_list_modules, ctx, repo)
     ctx.attempt(rule_schema, ctx, repo)
+    ctx.attempt(rule_store_per_call, ctx, repo)
     ctx.settle()
